@@ -2,6 +2,7 @@ package codec
 
 import (
 	"fmt"
+	"io"
 	"reflect"
 	"runtime/debug"
 	"sync"
@@ -228,4 +229,39 @@ func pickMsgs(r *vh.RNG, all []*msgInfo, n int) []*msgInfo {
 		}
 	}
 	return out
+}
+
+// frameSource is what every way of building a frame reader gives back.
+type frameSource interface {
+	Read() (frame.Frame, error)
+}
+
+var readerPathCounter uint64
+
+// newFrameSource builds a reader over src through one of the construction paths the package offers, in rotation:
+// the Reader struct + Initialize, the deprecated NewReader(ReaderConf), ReadWriter + Initialize, the deprecated
+// NewReadWriter(ReadWriterConf). All of them are the same reader with the same configuration.
+func newFrameSource(src io.Reader, drw *dialect.ReadWriter, key *frame.V2Key) (frameSource, error) {
+	readerPathCounter++
+	rw := struct {
+		io.Reader
+		io.Writer
+	}{src, io.Discard}
+	switch readerPathCounter % 4 {
+	case 1:
+		return frame.NewReader(frame.ReaderConf{Reader: src, DialectRW: drw, InKey: key})
+	case 2:
+		r := &frame.ReadWriter{ByteReadWriter: rw, DialectRW: drw, InKey: key, OutVersion: frame.V2, OutSystemID: 1}
+		if err := r.Initialize(); err != nil {
+			return nil, err
+		}
+		return r, nil
+	case 3:
+		return frame.NewReadWriter(frame.ReadWriterConf{ReadWriter: rw, DialectRW: drw, InKey: key, OutVersion: frame.V2, OutSystemID: 1})
+	}
+	rd := &frame.Reader{ByteReader: src, DialectRW: drw, InKey: key}
+	if err := rd.Initialize(); err != nil {
+		return nil, err
+	}
+	return rd, nil
 }
